@@ -53,6 +53,8 @@ def ev(F, t, is_len, r, mode, env=None, depth=0):
     if env is not None and t[0] == "param" and t[1] in env:
         return env[t[1]]
     k = t[0]
+    if k == "form":
+        return (t[1], t[2])
     if k == "const" and isinstance(t[1], int):
         return (0, t[1])
     if k == "bin":
@@ -61,6 +63,8 @@ def ev(F, t, is_len, r, mode, env=None, depth=0):
             op = op[:-len("WithOverflow")]
         a = ev(F, t[2], is_len, r, mode, env, depth + 1)
         b = ev(F, t[3], is_len, r, mode, env, depth + 1)
+        if op in ("Lt", "Le", "Gt", "Ge", "Eq", "Ne"):
+            return (0, 1 if _cmp(op, a, b, mode) else 0)        # a truth value, as `usize::from(n % 64 != 0)` uses it
         if op == "Add":
             return (a[0] + b[0], a[1] + b[1])
         if op == "Sub":
@@ -148,14 +152,25 @@ def ev(F, t, is_len, r, mode, env=None, depth=0):
             return (args[0][0] + s * args[1][0], args[0][1] + s * args[1][1])
         if last in ("from", "into", "try_from", "try_into", "unwrap", "clone") and len(t[2]) == 1:
             return ev(F, t[2][0], is_len, r, mode, env, depth + 1)
+        if name in ("std::mem::size_of", "core::mem::size_of") and not t[2] and len(t) > 3 and t[3]:
+            sz = {"u8": 1, "i8": 1, "u16": 2, "i16": 2, "u32": 4, "i32": 4, "u64": 8, "i64": 8, "usize": 8, "isize": 8, "u128": 16, "i128": 16}.get(t[3][0])
+            if sz is not None:
+                return (0, sz)                        # of the analysed (64-bit) configuration
+        if name in ("bits::low_set", "bits::low_set_unchecked") and len(t[2]) == 1:
+            w = ev(F, t[2][0], is_len, r, mode, env, depth + 1)
+            if _exact(w) and 0 <= w[1] <= 64:
+                return (0, (1 << w[1]) - 1)          # the table behind the accessor is decided by C17.R1 / R2
+            raise GiveUp("mask of unknown width")
         # a helper of the crate with a straight-line body: evaluated through its own MIR
         if F.has_body(name) and not name.startswith("<"):
             cb = F.body(name)
             if cb.nargs == len(t[2]):
                 body = cb.term_of_local(0)
+                sub = {i: ev(F, a, is_len, r, mode, env, depth + 1) for i, a in enumerate(t[2])}
                 if not any(isinstance(x, tuple) and x and x[0] in ("var", "deep") for x in _sub(body)):
-                    sub = {i: ev(F, a, is_len, r, mode, env, depth + 1) for i, a in enumerate(t[2])}
                     return ev(F, fold_consts(body), lambda x: False, r, mode, sub, depth + 1)
+                # a body with branches: followed path by path, every branch decided by the forms (or given up)
+                return run_body(F, cb, [sub[i] for i in range(cb.nargs)], r, mode, depth + 1)
         raise GiveUp("call %s" % name[-40:])
     if k == "field" and isinstance(t[2], str) and t[2].isdigit():
         inner = strip_casts(t[1])
@@ -257,3 +272,184 @@ def agrees(F, got, pred, want_of_n):
 
 def call(name, *args):
     return ("call", name, tuple(args), (), name)
+
+
+
+def _cmp(op, a, b, mode):
+    """Truth value of a comparison of two forms for every admitted Q, or GiveUp."""
+    d = (a[0] - b[0], a[1] - b[1])
+    if mode == 0 or d[0] == 0:
+        v = d[1]
+        lo = hi = v
+    else:
+        first = d[0] + d[1]                      # value at Q = 1; monotone in Q
+        if d[0] > 0:
+            lo, hi = first, None
+        else:
+            lo, hi = None, first
+    def sign():
+        if lo is not None and hi is not None:
+            return (lo > 0) - (lo < 0)
+        if lo is not None and lo > 0:
+            return 1
+        if hi is not None and hi < 0:
+            return -1
+        raise GiveUp("comparison not decided for every Q")
+    if op in ("Eq", "Ne"):
+        if lo is not None and hi is not None:
+            return (lo == 0) == (op == "Eq")
+        sgn = sign()
+        return op == "Ne"
+    sgn = sign() if not (lo is not None and hi is not None) else (lo > 0) - (lo < 0)
+    return {"Lt": sgn < 0, "Le": sgn <= 0, "Gt": sgn > 0, "Ge": sgn >= 0}[op]
+
+
+def run_body(F, b, args, r, mode, depth=0):
+    """The form returned by a (branching) function of the crate for arguments given as forms: its MIR is followed from the entry,
+    statement by statement, over the same abstract values as ev(); a branch is taken only when the forms decide its condition for
+    every admitted Q (a comparison of two forms, an exact integer), overflow assertions are assumed to pass (the property rules
+    that need them decide them separately), loops are cut off after 400 blocks.  GiveUp on anything else."""
+    if depth > 8:
+        raise GiveUp("too deep")
+    env = {i + 1: a for i, a in enumerate(args)}
+
+    def place(p):
+        v = env.get(p["l"])
+        if v is None:
+            raise GiveUp("unset local")
+        for pr in p["p"]:
+            if isinstance(pr, dict) and "f" in pr and isinstance(v, tuple) and v and v[0] == "pair":
+                v = v[1 + pr["f"]]
+            else:
+                raise GiveUp("projection")
+        return v
+
+    def operand(o):
+        q = o.get("c") or o.get("m")
+        if q is not None:
+            return place(q)
+        k = o.get("k")
+        if k is not None and isinstance(k.get("v"), (int, str)) and not isinstance(k.get("v"), bool):
+            try:
+                return (0, int(k["v"]))
+            except (TypeError, ValueError):
+                raise GiveUp("constant")
+        if k is not None and k.get("zst"):
+            return ("unit",)
+        if k is not None and isinstance(k.get("v"), bool):
+            return bool(k["v"])
+        raise GiveUp("operand")
+
+    def as_term(v):
+        if isinstance(v, bool):
+            return ("form", 0, int(v))
+        if isinstance(v, tuple) and len(v) == 2 and all(isinstance(x, int) for x in v):
+            return ("form", v[0], v[1])
+        raise GiveUp("non-integer operand")
+
+    bi, steps = 0, 0
+    while True:
+        steps += 1
+        if steps > 400:
+            raise GiveUp("loop")
+        blk = b.blocks[bi]
+        for st in blk["stmts"]:
+            if st["s"] != "assign":
+                continue
+            if st["lhs"]["p"]:
+                raise GiveUp("store through a projection")
+            rv = st["rv"]
+            k = rv["r"]
+            if k == "use":
+                val = operand(rv["o"])
+            elif k == "cast":
+                val = operand(rv["o"])
+                if rv.get("kind") != "IntToInt":
+                    raise GiveUp("cast")
+                if isinstance(val, bool):
+                    val = (0, int(val))
+            elif k == "bin":
+                op = rv["op"]
+                a, c = operand(rv["a"]), operand(rv["b"])
+                if op in ("Lt", "Le", "Gt", "Ge", "Eq", "Ne"):
+                    if isinstance(a, bool) or isinstance(c, bool):
+                        a, c = (0, int(a)) if isinstance(a, bool) else a, (0, int(c)) if isinstance(c, bool) else c
+                    val = _cmp(op, a, c, mode)
+                elif op.endswith("WithOverflow"):
+                    val = ("pair", ev(F, ("bin", op, as_term(a), as_term(c)), lambda x: False, r, mode, None, depth + 1), False)
+                else:
+                    val = ev(F, ("bin", op, as_term(a), as_term(c)), lambda x: False, r, mode, None, depth + 1)
+            elif k == "un" and rv.get("op") == "Not":
+                a = operand(rv["o"])
+                if not isinstance(a, bool):
+                    raise GiveUp("complement")
+                val = not a
+            else:
+                raise GiveUp("rvalue %s" % k)
+            env[st["lhs"]["l"]] = val
+        t = blk["term"]
+        k = t["t"]
+        if k == "goto":
+            bi = t["target"]
+        elif k == "return":
+            v = env.get(0)
+            if isinstance(v, tuple) and len(v) == 2 and all(isinstance(x, int) for x in v):
+                return v
+            raise GiveUp("non-integer result")
+        elif k == "assert":
+            bi = t["target"]
+        elif k == "drop":
+            bi = t["target"]
+        elif k == "switch":
+            d = operand(t["discr"])
+            if isinstance(d, bool):
+                d = (0, int(d))
+            if not (isinstance(d, tuple) and len(d) == 2 and d[0] == 0):
+                raise GiveUp("branch on an unknown")
+            nxt = t["otherwise"]
+            for val, tgt in t["targets"]:
+                if int(val) == d[1]:
+                    nxt = tgt
+            bi = nxt
+        elif k == "call":
+            if t["dest"]["p"] or t.get("target") is None:
+                raise GiveUp("call shape")
+            from facts import callee_name
+            name = callee_name(t)
+            argv = [operand(a) for a in t["args"]]
+            gen = tuple(x if isinstance(x, str) else str(x) for x in (t["callee"].get("args") or ()))
+            env[t["dest"]["l"]] = ev(F, ("call", name, tuple(as_term(a) for a in argv), gen, name), lambda x: False, r, mode, None, depth + 1)
+            bi = t["target"]
+        else:
+            raise GiveUp("terminator %s" % k)
+
+
+def fn_agrees(F, name, arg_terms, want, periods=(64,)):
+    """Does the crate function `name`, called with arg_terms (NVAR for the length, constants otherwise), return want(NVAR) for
+    every length?  Decided per residue of each period and for Q = 0 / Q >= 1 by run_body.  (True | False | None, text)"""
+    global M
+    if not F.has_body(name):
+        return None, "no body"
+    b = F.body(name)
+    wt = fold_consts(want(NVAR))
+    try:
+        last = None
+        for period in periods:
+            M = period
+            try:
+                for mode in (0, 1):
+                    for r in range(M):
+                        argf = [ev(F, a, is_nvar, r, mode) for a in arg_terms]
+                        got = run_body(F, b, argf, r, mode)
+                        exp = ev(F, wt, is_nvar, r, mode)
+                        if got != exp:
+                            n = r if mode == 0 else "%d*Q + %d (Q >= 1)" % (M, r)
+                            return False, "differ for N = %s: %s vs %s" % (n, _show(got), _show(exp))
+                return True, "equal for every length (residues mod %d)" % period
+            except GiveUp as g:
+                last = str(g)
+                if "period" not in last:
+                    break
+        return None, "residues: not evaluable (%s)" % last
+    finally:
+        M = 64
